@@ -263,7 +263,8 @@ def known_findings(prop):
     if not os.path.exists(p):
         return {}
     data = json.load(open(p))
-    return {f["id"]: f for f in data.get("findings", []) if f["property"] == prop and f.get("status") == "open"}
+    return {f["id"]: f for f in data.get("findings", [])
+            if (f["property"] == prop or prop in f.get("also", [])) and f.get("status") == "open"}
 
 
 class Ctx:
